@@ -66,7 +66,7 @@ func realizePrec(a *act) {
 	}
 	if want == "oog" {
 		eff := uint64(0)
-		if a.kind == 'C' && (a.ck == "call" || a.ck == "callcode") && a.value != 0 {
+		if a.kind == 'C' && (a.ck == "call" || a.ck == "callcode") && a.val().Sign() != 0 {
 			eff = 2300 // CallStipend
 		}
 		if a.kind == 'A' || precPrice(n, false) <= eff {
